@@ -101,9 +101,11 @@ SPEC = dict(
          "C02_check_complete (the checker raises no false alarm); for the extracted concrete model, every arm, with the "
          "layout hypotheses discharged: C02_concrete_scan, C02_concrete_scan_explicit (scores written out as the "
          "left-to-right f32 sum / saturating byte sum of the window cells), C02_concrete_scan_c08 (conservativeness "
-         "reduced to C08's main clause per position + factor sign bit clear, via coq/disc's C08_scale_monotone_f32), "
+         "reduced to C08's main clause per position, via coq/disc's C08_scale_monotone_f32 and the sign of the factor, "
+         "which is clear since the repair of F14b), "
          "C02_concrete_sound. The corpus (run first) holds boundary cases, the inputs on which seven deliberate "
-         "mutations of scan.rs were caught, and the witnesses of the known findings F14b-c02 / F14-c02.",
+         "mutations of scan.rs and the seeded changes were caught, the witnesses of the repaired defect F14b (must pass) and "
+         "the witness of the known finding F14-c02.",
     trusted_base=COMMON_TRUSTED,
     assumptions=[
         "conservative (property C08) at the scanner's threshold: a valid position whose f32 score is >= thr has an "
@@ -117,8 +119,9 @@ SPEC = dict(
         "rows of >= K cells, symbols < K) and every arm",
         "qualifying scores are not NaN: follows from the IEEE comparison (F32Order.v: x >= t implies x is not NaN)",
         "C02_concrete_scan_c08 imports coq/disc (DiscF32Mono.scale_with_f32_mono: binary32 scale is monotone when the "
-        "sign bit of the factor is clear); its two hypotheses are C08's main clause at every position and the sign "
-        "condition, both false only on the inputs of the known findings F14 / F14b",
+        "sign bit of the factor is clear; DiscF32Sign.div_abs_sign: it is, for the repaired to_discrete); its only "
+        "numeric hypothesis is C08's main clause at every position (byte score >= scale(real score)), which is false "
+        "on ill-conditioned matrices (known finding F14)",
         "input side conditions of the property: block size >= 1, motif not empty, sequence configured for the motif; "
         "no NaN among the non-wildcard matrix cells (to_discrete unwraps partial_cmp: Scanner::new panics, compared "
         "with the model only)",
